@@ -581,6 +581,11 @@ func newKey(r *Rng, alg uint8, owner [][]byte) *keyPair {
 	if err != nil {
 		panic(err)
 	}
+	for k.KeyTag() == 0 { // one key in 65536: Sign refuses it (recorded finding C17/Sign/key-tag-zero); take another
+		if p, err = k.Generate(bits); err != nil {
+			panic(err)
+		}
+	}
 	pub, _ := base64.StdEncoding.DecodeString(k.PublicKey)
 	return &keyPair{k: k, priv: p.(crypto.Signer), owner: owner, pub: pub}
 }
